@@ -53,16 +53,22 @@ def build_factory(cfg):
 
 
 def ctx_of(cfg):
+    if cfg.get("sim"):
+        return "sim"
     return f"{cfg['kind']}/W{cfg['W']}" + ("/ask-backend" if not cfg.get("nodelay", True) else "")
 
 
 def label(cfg):
+    if cfg.get("sim"):
+        return {k: cfg[k] for k in sorted(cfg)}
     d = {k: cfg[k] for k in sorted(cfg) if k != "profile"}
     d["profile"] = tunerx.profile_name(cfg["profile"])
     return d
 
 
 def task(cfg):
+    if cfg.get("sim"):
+        return task_sim(cfg)
     seen = set()
 
     def check(ex):
@@ -72,6 +78,22 @@ def task(cfg):
 
     cov, viols = tunerx.explore(build_factory(cfg), check, PROP, label(cfg), bound=cfg["k"], max_exec=cfg.get("max_exec"),
                                 loop_cap=cfg.get("loop_cap", 150), ctx=ctx_of(cfg),
+                                state_of=lambda ex: getattr(ex, "states_seen", ()))
+    cov.extra["protocol_transitions_seen"] = sorted(seen)
+    return cov, viols
+
+
+def task_sim(cfg):
+    """the same life-cycle / protocol monitor over the real simulator backend (reuses the C10 harness)"""
+    from . import c10
+    seen = set()
+
+    def check(ex):
+        vs = monitors.lifecycle(ex, cfg["W"], allow_exc=("LoopCap",))
+        seen.update(ex.proto_seen)
+        return vs
+    cov, viols = tunerx.explore(c10.build_factory(cfg), check, PROP, c10.label(cfg), bound=cfg["k"], max_exec=cfg.get("max_exec"),
+                                loop_cap=cfg.get("loop_cap", 400), ctx="sim/" + c10.ctx_of(cfg) + f"/W{cfg['W']}",
                                 state_of=lambda ex: getattr(ex, "states_seen", ()))
     cov.extra["protocol_transitions_seen"] = sorted(seen)
     return cov, viols
@@ -101,6 +123,12 @@ def configs(tier, seed):
                 cfg.pop("async_")
                 out.append(cfg)
 
+    # the real simulator backend (tables, delays, outside-time choices): a sample of the C10 configurations
+    from . import c10
+    sims = c10.configs(tier, seed)
+    for i, c in enumerate(sims):
+        if i % (3 if tier == "quick" else 2) == 0:
+            out.append(dict(c, sim=True, max_exec=40 if tier == "quick" else 600))
     # start_jobs_without_delay=False: the tuner asks the backend for busy workers; a job may exit between poll and query
     for kind in ("fifo-random", "hb-stopping", "hb-promotion"):
         for W in (2, 3):
